@@ -25,6 +25,9 @@ RULE = (
     "accepted, and so must all its ancestors; the inspected Tile (corners array, tuple) is bit-identical after the call. "
     "'sampling' cases: sample_layer_filtered(filter) vs unfiltered sampling of the same source, and all chunks in sequence vs whole-map "
     "sampling. Non-trivial: a decision where the oracle demands acceptance; distinct by (kind, region parameters)."
+    ' Also: one filter object answering for both coordinate systems and from four concurrent threads; chunk (filter, sampler) pairs req'
+    'uested up front / in reverse; chunk boundaries placed on the longitudes where TOAST pixel centres lie exactly (odd multiples of W/'
+    '8); a transient EMFILE inside ImageLoader.load_path while a later chunk merges (the chunk is re-run when the error is reported).'
 )
 ASSUMPTIONS = ["astropy.wcs is the oracle for footprints", "toast_tile_get_coords is trusted here (C05)", "compiled extension as built; .pyx coherent with .c"]
 
